@@ -2,7 +2,7 @@
    generated from resource.py (Gen/resource_site.v, tie T):
      - the nested-site tree, Site.render / Site.render_to_pipe dispatch (resource.py:407-413, 464-487),
      - Site.get_resources_as_linkheader (resource.py:441-462), Link/LinkFormat.__str__ (util/linkformat.py),
-     - WKCResource.render_get with one filter query (resource.py:248-304), Link.__getattr__ (vendored/link_header.py:248-274),
+     - WKCResource.render_get with one filter query (resource.py:248-319),
      - the path Message.get_request_uri reconstructs on the server (message.py:613-634),
      - add_resource / remove_resource applied to a site addressed inside the tree.
    No proofs in this file. *)
@@ -45,9 +45,6 @@ Fixpoint drop_last_char (s : string) : string :=
   | String c EmptyString => EmptyString
   | String c r => String c (drop_last_char r)
   end.
-(* iterating over a str gives its characters as 1-character strings *)
-Fixpoint chars (s : string) : list string :=
-  match s with EmptyString => [] | String c r => String c "" :: chars r end.
 (* value.replace('"', '\\"') *)
 Fixpoint escape_quotes (s : string) : string :=
   match s with
@@ -111,58 +108,23 @@ Fixpoint get_resources_as_linkheader (n : node) : option (list link) :=
                end) ss)%list
   end.
 
-(* ------------------------------------------------------------------ WKCResource.render_get, one filter *)
-(* what iterating getattr(link, k, ()) yields *)
-Inductive pyv := VStr (s : string) | VNone | VPair.
-Definition SINGLE_VALUED_ATTRS : list string := ["rel"; "anchor"; "rev"; "media"; "title"; "title*"; "type"].
-Definition LINK_METHODS : list string := ["to_py"; "get_context"; "get_target"].
-(* Link.__getattr__: values of all pairs whose key matches case-insensitively *)
-Definition attr_values (l : link) (k : string) : list (option string) :=
-  map snd (filter (fun a : attr => String.eqb (lower (fst a)) (lower k)) (snd l)).
-Definition opt_to_pyv (v : option string) : pyv := match v with Some s => VStr s | None => VNone end.
-(* the elements of getattr(link, k, ()) as the generic (last) filter branch iterates them *)
-Definition getattr_iter (l : link) (k : string) : M (list pyv) :=
-  if String.eqb k "attr_pairs" then Ok (map (fun _ => VPair) (snd l))       (* real instance attribute: list of [k, v] lists *)
-  else if mem_str k LINK_METHODS then Raise TypeError                        (* bound method is not iterable *)
-  else if mem_str k SINGLE_VALUED_ATTRS then
-    match attr_values l k with
-    | [] => Ok []                                                             (* AttributeError -> getattr default () *)
-    | Some s :: _ => Ok (map VStr (chars s))                                  (* a str is iterated character by character *)
-    | None :: _ => Raise TypeError                                            (* None is not iterable *)
-    end
-  else Ok (map opt_to_pyv (attr_values l k)).
-(* " ".join(getattr(link, k, ())).split(" ") of the rt/if/ct branch *)
-Fixpoint all_strs (vs : list (option string)) : M (list string) :=
-  match vs with
-  | [] => Ok []
-  | Some s :: r => r' <- all_strs r ;; Ok (s :: r')
-  | None :: _ => Raise TypeError
-  end.
-Definition space_parts (l : link) (k : string) : M (list pyv) :=
-  vs <- all_strs (attr_values l k) ;; Ok (map VStr (split_space (join " " vs))).
+(* ------------------------------------------------------------------ WKCResource.render_get, one filter (resource.py:248-319) *)
+(* values(link): the values of the attribute named k — names compared case-insensitively, pairs without value (obs) skipped *)
+Definition attr_values (l : link) (k : string) : list string :=
+  flat_map (fun a : attr => if String.eqb (lower (fst a)) (lower k)
+                            then match snd a with Some s => [s] | None => [] end
+                            else []) (snd l).
 (* matchexp: x == v   /   x.startswith(v[:-1]) *)
-Definition matchexp (is_prefix : bool) (pat : string) (x : pyv) : M bool :=
-  match x with
-  | VStr s => Ok (if is_prefix then String.prefix pat s else String.eqb s pat)
-  | _ => if is_prefix then Raise AttributeError else Ok false
-  end.
-(* any(matchexp(part) for part in parts): short-circuit *)
-Fixpoint any_match (is_prefix : bool) (pat : string) (parts : list pyv) : M bool :=
-  match parts with
-  | [] => Ok false
-  | x :: r => b <- matchexp is_prefix pat x ;; if b then Ok true else any_match is_prefix pat r
-  end.
-Definition link_matches (k v : string) (l : link) : M bool :=
+Definition matchexp (is_prefix : bool) (pat : string) (x : string) : bool :=
+  if is_prefix then String.prefix pat x else String.eqb x pat.
+Definition LIST_VALUED_ATTRS : list string := ["rt"; "if"; "ct"; "rel"].
+Definition link_matches (k v : string) (l : link) : bool :=
   let is_prefix := ends_with_star v in
   let pat := if is_prefix then drop_last_char v else v in
-  if mem_str k ["rt"; "if"; "ct"] then parts <- space_parts l k ;; any_match is_prefix pat parts
-  else if String.eqb k "href" then matchexp is_prefix pat (VStr (fst l))
-  else parts <- getattr_iter l k ;; any_match is_prefix pat parts.
-Fixpoint filter_links (k v : string) (ls : list link) : M (list link) :=
-  match ls with
-  | [] => Ok []
-  | l :: r => b <- link_matches k v l ;; r' <- filter_links k v r ;; Ok (if b then l :: r' else r')
-  end.
+  if mem_str k LIST_VALUED_ATTRS then existsb (matchexp is_prefix pat) (flat_map split_space (attr_values l k))
+  else if String.eqb k "href" then matchexp is_prefix pat (fst l)
+  else existsb (matchexp is_prefix pat) (attr_values l k).
+Definition filter_links (k v : string) (ls : list link) : list link := filter (link_matches k v) ls.
 Definition impl_info_links (impl_info : option string) : list link :=
   match impl_info with Some h => [(h, [("rel", Some "impl-info")])] | None => [] end.
 (* query: no Uri-Query option, or exactly one (several at once are outside RFC 6690 4.1 and outside this model: O1) *)
@@ -172,7 +134,7 @@ Definition wkc_render_get (links : list link) (impl_info : option string) (query
   | None => Ok links
   | Some q => match split_eq q with
               | None => Ok links                                               (* no "=": not a relevant filter *)
-              | Some (k, v) => filter_links k v links
+              | Some (k, v) => Ok (filter_links k v links)
               end
   end.
 
